@@ -70,7 +70,11 @@ def ind(v):
 
 
 def impl_eq(v, w):
-    return bool(ind(v) == ind(w))
+    a, b = ind(v), ind(w)
+    # ids are not unique in practice (Individual.from_dict restores stored ids while the counter restarts in every
+    # process): equality must be decided by the coordinates, whatever the ids are - here the two points share one
+    b.id = a.id
+    return bool(a == b)
 
 
 def impl_mem(x, vs):
@@ -347,6 +351,8 @@ def run(ctx):
     for k, (v, w) in enumerate(cases):
         m_vw, m_wv, m_h = ans[3 * k:3 * k + 3]
         a, b = ind(v), ind(w)
+        if k % 3 == 0:
+            b.id = a.id      # two different points may carry the same id (restored from a store)
         i_vw, i_wv, i_ne = bool(a == b), bool(b == a), bool(a != b)
         diff = [i for i in range(len(v)) if Fraction(v[i]) != Fraction(w[i])]
         far = [i for i in diff if abs(Fraction(v[i]) - Fraction(w[i])) >= TOL]
